@@ -40,7 +40,7 @@ theorem filterMap_range_get {α : Type} (l : List α) (s : Nat) : ∀ n : Nat,
     (List.range n).filterMap (fun k => l[s + k]?) = (l.drop s).take n
   | 0 => by simp
   | n + 1 => by
-    rw [List.range_succ, List.filterMap_append, filterMap_range_get l s n, List.take_succ,
+    rw [List.range_succ, List.filterMap_append, filterMap_range_get l s n, List.take_add_one,
       List.getElem?_drop]
     cases h : l[s + n]? <;> simp [h]
 
@@ -52,10 +52,9 @@ theorem trim_map : ∀ l : List Entry,
     have ih := trim_map (e' :: rest)
     simp only [List.map_cons] at ih ⊢
     rw [reportEvent.trim, trimTrailing]
-    simp only [rng]
-    split
-    · simpa [rng] using ih
-    · simp [rng]
+    by_cases h : e.off = e.endo
+    · simpa [rng, h] using ih
+    · simp [rng, h]
 
 /-! ### one report -/
 
@@ -108,9 +107,10 @@ theorem applyRuleEvents_eq (x : XTables) (rule : Int) (ln off endo : Nat) (stack
         | some evs =>
           some (if info.ruleType ≠ 0 then evs ++ [XEv.node info.ruleType off endo'] else evs, endo') := by
   unfold applyRuleEvents
-  split
-  · rfl
-  · rename_i info hinfo
+  generalize (if rule < 0 then none else x.rules[rule.toNat]?) = info
+  cases info with
+  | none => rfl
+  | some info =>
     simp only
     rw [foldl_opt _ (repX x.fixWhitespace (stackTop.take ln) ln) (fun _ => rfl)]
     · cases List.mapM (repX x.fixWhitespace (List.take ln stackTop) ln) info.reports <;> simp
@@ -124,5 +124,244 @@ theorem applyRuleEvents_eq (x : XTables) (rule : Int) (ln off endo : Nat) (stack
           · simp
           · split <;> simp_all
         · split <;> simp_all
+
+/-- One report: the runtime's listener call (from stack entries) is the event the specification
+assigns (from the children's ranges). -/
+theorem repX_reportEvent (fw : Bool) (rhsTop : List Entry) (ln after : Nat) (r : Report) (ev : XEv)
+    (hlen : rhsTop.length = ln) (hr : r.start ≤ r.stop)
+    (h : repX fw rhsTop ln r = some ev) :
+    reportEvent fw (rhsTop.reverse.map rng) after r = some ev := by
+  have hAt : ∀ j, rhsAt rhsTop ln j = rhsTop.reverse[j]? := fun j => rhsAt_eq rhsTop ln j hlen
+  have hRlen : rhsTop.reverse.length = ln := by simp [hlen]
+  generalize rhsTop.reverse = R at hAt hRlen
+  unfold repX at h
+  unfold reportEvent
+  simp only [hAt] at h
+  by_cases hse : r.start = r.stop
+  · simp only [hse, if_true] at h ⊢
+    cases hR : R[r.stop]? with
+    | none => simp [hR] at h
+    | some e =>
+      simp only [hR] at h
+      simp only [List.getElem?_map, hR, Option.map_some, rng]
+      exact h
+  · simp only [hse, if_false] at h ⊢
+    have hlt : r.start < r.stop := by omega
+    cases fw with
+    | true =>
+      simp only [if_true] at h ⊢
+      rw [List.filterMap_reverse, filterMap_range_get] at h
+      simp only [List.length_reverse] at h
+      rw [← List.map_drop, ← List.map_take]
+      simp only [List.length_map]
+      generalize (R.drop r.start).take (r.stop - r.start) = S at h ⊢
+      split at h
+      · cases h
+      · rename_i hS
+        rw [if_neg hS]
+        simp only [← List.map_reverse, trim_map]
+        split at h
+        · cases h
+        · rename_i last rest hT
+          rw [hT]
+          simp only [List.map_reverse, List.head?_reverse, List.getLast?_reverse]
+          simp only [List.map_cons, List.head?_cons]
+          injection h with h
+          rw [← h]
+          cases rest with
+          | nil => simp [rng]
+          | cons a rest =>
+            simp only [List.getLast?_cons_cons, List.map_cons]
+            rw [← List.map_cons, List.getLast?_map]
+            cases hgl : (a :: rest).getLast? with
+            | none => simp at hgl
+            | some b => simp [rng]
+    | false =>
+      simp only [Bool.false_eq_true, if_false] at h ⊢
+      cases ha : R[r.start]? with
+      | none => simp [ha] at h
+      | some a =>
+        cases hb : R[r.stop - 1]? with
+        | none => simp [ha, hb] at h
+        | some b =>
+          simp only [ha, hb] at h
+          have hb' : r.stop - 1 < R.length := by
+            rcases Nat.lt_or_ge (r.stop - 1) R.length with h1 | h1
+            · exact h1
+            · rw [List.getElem?_eq_none h1] at hb; cases hb
+          have hl : ((R.map rng).drop r.start |>.take (r.stop - r.start)).length = r.stop - r.start := by
+            simp; omega
+          rw [if_neg (by omega)]
+          have h1 : ((R.map rng).drop r.start |>.take (r.stop - r.start)).head? = some (rng a) := by
+            rw [List.head?_take, if_neg (by omega), List.head?_drop, List.getElem?_map, ha]; rfl
+          have h2 : ((R.map rng).drop r.start |>.take (r.stop - r.start)).getLast? = some (rng b) := by
+            rw [List.getLast?_eq_getElem?, hl, List.getElem?_take, if_pos (by omega),
+              List.getElem?_drop, List.getElem?_map]
+            have : r.start + (r.stop - r.start - 1) = r.stop - 1 := by omega
+            rw [this, hb]; rfl
+          rw [h1, h2]
+          simpa [rng] using h
+
+/-- all reports of a rule -/
+theorem mapM_repX_reportEvent (fw : Bool) (rhsTop : List Entry) (ln after : Nat)
+    (hlen : rhsTop.length = ln) : ∀ (rs : List Report) (evs : List XEv),
+    (∀ r ∈ rs, r.start ≤ r.stop) → rs.mapM (repX fw rhsTop ln) = some evs →
+    rs.mapM (reportEvent fw (rhsTop.reverse.map rng) after) = some evs
+  | [], evs, _, h => by simpa using h
+  | r :: rs, evs, hwf, h => by
+    simp only [List.mapM_cons] at h ⊢
+    cases h1 : repX fw rhsTop ln r with
+    | none => simp [h1] at h
+    | some e =>
+      cases h2 : rs.mapM (repX fw rhsTop ln) with
+      | none => simp [h1, h2] at h
+      | some es =>
+        rw [repX_reportEvent fw rhsTop ln after r e hlen (hwf r (by simp)) h1,
+          mapM_repX_reportEvent fw rhsTop ln after hlen rs es (fun r hr => hwf r (by simp [hr])) h2]
+        simpa [h1, h2] using h
+
+/-- `fixTrailingWS` on the stack entries is the `find?` of `layout` on the children's ranges. -/
+theorem fixTrailingWS_eq (off endo : Nat) (rhsTop : List Entry) :
+    fixTrailingWS off endo rhsTop =
+      match (rhsTop.reverse.map rng).reverse.find? (fun p => p.1 ≠ p.2) with
+      | some p => p.2
+      | none => if (rhsTop.reverse.map rng).isEmpty then endo else off := by
+  unfold fixTrailingWS
+  rw [← List.map_reverse, List.reverse_reverse, List.find?_map]
+  cases rhsTop with
+  | nil => simp
+  | cons e es =>
+    simp only [List.isEmpty_cons, Bool.false_eq_true, if_false]
+    have : ((fun p : Nat × Nat => decide (p.1 ≠ p.2)) ∘ rng) = fun e : Entry => decide (e.off ≠ e.endo) := by
+      funext e; rfl
+    rw [this]
+    cases List.find? (fun e : Entry => decide (e.off ≠ e.endo)) (e :: es) <;> simp [rng]
+
+/-! ### `layout` / `layoutList` equations with named projections -/
+
+/-- start offset of a laid-out child list (`after` if it is empty) -/
+def headOff (items : List (Nat × Nat)) (after : Nat) : Nat :=
+  match items.head? with | some (o, _) => o | none => after
+
+/-- end offset of a laid-out child list (`after` if it is empty) -/
+def lastEnd (items : List (Nat × Nat)) (after : Nat) : Nat :=
+  match items.getLast? with | some (_, e) => e | none => after
+
+/-- `fixTrailingWS` on ranges -/
+def fixEnd (items : List (Nat × Nat)) (off endo : Nat) : Nat :=
+  match items.reverse.find? (fun p => p.1 ≠ p.2) with
+  | some p => p.2
+  | none => if items.isEmpty then endo else off
+
+theorem layout_tok (x : XTables) (t : Tok) (after : Nat) :
+    layout x (.tok t) after = some ⟨t.off, t.endo, []⟩ := by rw [layout]
+
+theorem layout_node (x : XTables) (rule : Nat) (children : List PTree) (after : Nat) (ll : LaidList)
+    (h : layoutList x children after = some ll) :
+    layout x (.node rule children) after =
+      (((x.rules[rule]?).getD {}).reports.mapM (reportEvent x.fixWhitespace ll.items after)).map fun reps =>
+        ⟨headOff ll.items after,
+         if ((x.rules[rule]?).getD {}).fixWS then
+           fixEnd ll.items (headOff ll.items after) (lastEnd ll.items after) else lastEnd ll.items after,
+         ll.evs ++ reps ++
+           (if ((x.rules[rule]?).getD {}).ruleType ≠ 0 then
+             [XEv.node ((x.rules[rule]?).getD {}).ruleType (headOff ll.items after)
+               (if ((x.rules[rule]?).getD {}).fixWS then
+                 fixEnd ll.items (headOff ll.items after) (lastEnd ll.items after) else lastEnd ll.items after)]
+            else [])⟩ := by
+  rw [layout, h]
+  simp only
+  cases List.mapM (reportEvent x.fixWhitespace ll.items after) ((x.rules[rule]?).getD {}).reports <;> rfl
+
+theorem layout_node_none (x : XTables) (rule : Nat) (children : List PTree) (after : Nat)
+    (h : layoutList x children after = none) : layout x (.node rule children) after = none := by
+  rw [layout, h]
+
+theorem layoutList_nil (x : XTables) (after : Nat) : layoutList x [] after = some ⟨[], []⟩ := by
+  rw [layoutList]
+
+theorem layoutList_cons (x : XTables) (c : PTree) (rest : List PTree) (after : Nat) :
+    layoutList x (c :: rest) after =
+      match layoutList x rest after with
+      | none => none
+      | some lr =>
+        match layout x c (headOff lr.items after) with
+        | none => none
+        | some lc => some ⟨(lc.off, lc.endo) :: lr.items, lc.evs ++ lr.evs⟩ := by
+  rw [layoutList]
+  cases layoutList x rest after <;> rfl
+
+/-! ### `layoutList` from the right -/
+
+theorem layoutList_snoc (x : XTables) (c : PTree) (after : Nat) : ∀ cs : List PTree,
+    layoutList x (cs ++ [c]) after =
+      match layout x c after with
+      | none => none
+      | some lc =>
+        match layoutList x cs lc.off with
+        | none => none
+        | some lr => some ⟨lr.items ++ [(lc.off, lc.endo)], lr.evs ++ lc.evs⟩
+  | [] => by
+    simp only [List.nil_append, layoutList_cons, layoutList_nil, headOff, List.head?_nil]
+    cases h : layout x c after <;> simp
+  | d :: cs => by
+    simp only [List.cons_append]
+    rw [layoutList_cons, layoutList_snoc x c after cs]
+    cases hc : layout x c after with
+    | none => simp
+    | some lc =>
+      simp only
+      rw [layoutList_cons]
+      cases hr : layoutList x cs lc.off with
+      | none => simp
+      | some lr =>
+        simp only
+        have : headOff (lr.items ++ [(lc.off, lc.endo)]) after = headOff lr.items lc.off := by
+          unfold headOff; cases lr.items <;> simp
+        rw [this]
+        cases layout x d (headOff lr.items lc.off) <;> simp
+
+/-- **One reduction.** If the children (`kids`, left to right) are laid out with ranges equal to the
+ranges of the popped stack entries, then the listener calls of `applyRuleEvents` are exactly the
+report events and the own node of `layout` for the new tree, and the new stack entry's range
+`(off, endo')` is the tree's range. -/
+theorem applyRule_layout (x : XTables) (rule : Int) (hrule : 0 ≤ rule) (stack : List Entry) (ln : Nat)
+    (hln : ln ≤ stack.length) (kids : List PTree) (after : Nat) (ll : LaidList)
+    (hll : layoutList x kids after = some ll)
+    (hitems : ll.items = (stack.take ln).reverse.map rng)
+    (hwf : reportsWF x = true) (off endo endo' : Nat) (evs : List XEv)
+    (hoff : off = headOff ll.items after)
+    (hendo : endo = lastEnd ll.items after)
+    (h : applyRuleEvents x rule ln off endo stack = some (evs, endo')) :
+    layout x (.node rule.toNat kids) after = some ⟨off, endo', ll.evs ++ evs⟩ := by
+  rw [applyRuleEvents_eq, if_neg (by omega)] at h
+  rw [layout_node x _ _ _ ll hll, ← hoff, ← hendo]
+  have hlen : (stack.take ln).length = ln := by simp; omega
+  cases hinfo : x.rules[rule.toNat]? with
+  | none =>
+    rw [hinfo] at h
+    simp only [Option.some.injEq, Prod.mk.injEq] at h
+    obtain ⟨h1, h2⟩ := h
+    subst h1 h2
+    simp
+  | some info =>
+    rw [hinfo] at h
+    simp only [Option.getD_some]
+    simp only at h
+    cases hm : info.reports.mapM (repX x.fixWhitespace (stack.take ln) ln) with
+    | none => rw [hm] at h; cases h
+    | some reps =>
+      rw [hm] at h
+      simp only [Option.some.injEq, Prod.mk.injEq] at h
+      obtain ⟨h1, h2⟩ := h
+      have hm' := mapM_repX_reportEvent x.fixWhitespace (stack.take ln) ln after hlen info.reports reps
+        (fun r hr => reportsWF_get hwf hinfo hr) hm
+      rw [hitems, hm']
+      simp only [Option.map_some]
+      have hfix : (if info.fixWS = true then
+            fixEnd (List.map rng (List.take ln stack).reverse) off endo else endo) = endo' := by
+        rw [← h2, fixTrailingWS_eq]; rfl
+      rw [hfix, ← h1, h2]
+      split <;> simp_all
 
 end TmVerif.Events
